@@ -37,6 +37,7 @@ func c18Decode(code uint8, flags uint8, val []byte) (any, error) {
 	case 2:
 		var a corebgp.ASPathAttr
 		err := a.Decode(f, b)
+		c18Interfere(err)
 		return [2][]uint32{nz(a.ASSet), nz(a.ASSequence)}, err
 	case 3:
 		var n corebgp.NextHopPathAttr
@@ -61,6 +62,7 @@ func c18Decode(code uint8, flags uint8, val []byte) (any, error) {
 	case 8:
 		var c corebgp.CommunitiesPathAttr
 		err := c.Decode(f, b)
+		c18Interfere(err)
 		return nz([]uint32(c)), err
 	case 9:
 		var o corebgp.OriginatorIDPathAttr
@@ -69,6 +71,7 @@ func c18Decode(code uint8, flags uint8, val []byte) (any, error) {
 	case 10:
 		var c corebgp.ClusterListPathAttr
 		err := c.Decode(f, b)
+		c18Interfere(err)
 		if c == nil {
 			return []netip.Addr{}, err
 		}
@@ -76,6 +79,7 @@ func c18Decode(code uint8, flags uint8, val []byte) (any, error) {
 	case 32:
 		var l corebgp.LargeCommunitiesPathAttr
 		err := l.Decode(f, b)
+		c18Interfere(err)
 		out := [][3]uint32{}
 		for _, x := range l {
 			out = append(out, [3]uint32{x.GlobalAdmin, x.LocalData1, x.LocalData2})
@@ -83,6 +87,23 @@ func c18Decode(code uint8, flags uint8, val []byte) (any, error) {
 		return out, err
 	}
 	panic("no decoder")
+}
+
+// c18Interfere decodes, after a successful decode of a list-valued attribute and before
+// its result is read, other well-formed list-valued attributes into receivers of their
+// own: what a decoder yielded must not change when the decoders are used again.
+func c18Interfere(err error) {
+	if err != nil {
+		return
+	}
+	var a corebgp.ASPathAttr
+	a.Decode(0x40, []byte{2, 3, 0, 0, 0xfd, 0xe9, 0, 0, 0xfd, 0xea, 0, 0, 0xfd, 0xeb, 1, 2, 0, 0, 0, 7, 0, 0, 0, 8}) // nolint: errcheck
+	var c corebgp.CommunitiesPathAttr
+	c.Decode(0xc0, []byte{0xff, 0xff, 0xff, 1, 0, 100, 0, 1, 0, 100, 0, 2, 0, 100, 0, 3}) // nolint: errcheck
+	var cl corebgp.ClusterListPathAttr
+	cl.Decode(0x80, []byte{10, 9, 8, 7, 10, 9, 8, 6, 10, 9, 8, 5}) // nolint: errcheck
+	var l corebgp.LargeCommunitiesPathAttr
+	l.Decode(0xc0, []byte{0, 0, 0xfd, 0xe9, 0, 0, 0, 1, 0, 0, 0, 2, 0, 0, 0xfd, 0xea, 0, 0, 0, 3, 0, 0, 0, 4}) // nolint: errcheck
 }
 
 func nz(s []uint32) []uint32 {
